@@ -508,16 +508,16 @@ func genC13(r *rand.Rand, n int, emit func(string)) {
 			label = "origdoc/context"
 		case 2:
 			d["id"] = ""
-			label = "origdoc/id-empty-ok"
+			label = "origdoc/id-empty"
 		case 3:
 			d["@context"] = []interface{}{}
-			label = "origdoc/context-empty-ok"
+			label = "origdoc/context-empty"
 		case 4:
-			d["id"] = 7
+			d["id"] = pick(r, []interface{}{7, true, nil, []interface{}{"did:x:abc"}, M{"a": 1}})
 			label = "origdoc/id-not-string"
 		case 5:
-			d["@context"] = "https://w3id.org/did/v1"
-			label = "origdoc/context-string"
+			d["@context"] = pick(r, []interface{}{"https://w3id.org/did/v1", M{"@base": "x"}, nil, 1})
+			label = "origdoc/context-not-list"
 		}
 		b, _ := json.Marshal(d)
 		emit(proto.Line("origdoc", M{"doc": proto.Hex(b), "label": label}))
